@@ -1160,6 +1160,16 @@ func (fr *Frame) dynamicCall(st *State, call ssa.CallInstruction, args []Term) [
 	c := call.Common()
 	sig := c.Signature()
 	vc.Abstracted["call through unresolved function value: "+describe(c.Value, 0)] = true
+	if ct := vc.C.Externs["dyn:"+describe(c.Value, 0)]; ct != nil && len(ct.Requires) > 0 {
+		// what must hold whenever this function value is invoked (checked here, at the call)
+		env := vc.callEnv(nil, sig, ct, args, st, nil, "requires of "+ct.Key)
+		env.pkg = pkgOfFunc(fr.fn)
+		env.lenient = true
+		for _, cl := range ct.Requires {
+			vc.oblig(fr, st, "pre", "dyn:"+describe(c.Value, 0)+"."+cl.Label, "", env.boolTerm(cl.Expr), call.Pos())
+		}
+		vc.reportEnvErrors(env)
+	}
 	clkBefore := vc.bumpClock(st)
 	if ct := vc.C.Externs["dyn:"+describe(c.Value, 0)]; ct != nil && ct.Pure {
 		// configured callback declared read-only in the specs (assumption, listed)
